@@ -39,7 +39,9 @@ ASSUMPTIONS = [
     "equality of field-less command classes is class identity (they define no __eq__)",
     "pickle and orjson are trusted for the values they carry; the framing/dispatch code around them is under test",
     "key strings are ASCII (the documented domain); sizes are unsigned integers below 2^64 (the width of AllocateRequest.l)",
-    "JobInstance statics are restricted to values JSON represents faithfully",
+    "JobInstance statics are restricted to values JSON represents faithfully, except for the counted class that puts one non-finite "
+    "float (nan, inf, -inf; bare or inside a list) into a static input: there the property allows the encoder to refuse or the value to "
+    "come back, and known finding F41 (it comes back as None, everything else intact) is matched by that signature only",
 ]
 TIERS = {
     "quick": {"cases": 16000, "shards": 8},
@@ -210,7 +212,11 @@ def gateway_cases(draw):
 
 @st.composite
 def job_cases(draw):
-    return {"family": "job", "spec": draw(job_specs(max_tasks=8, with_serdes=True))}
+    # a counted class puts a non-finite float (which JSON has no notation for) into one static input: the value must be preserved
+    # or refused, not replaced (the replay file names it, the value itself is made when the case is run)
+    nonfinite = draw(st.one_of(st.none(), st.none(), st.none(),
+                               st.tuples(st.integers(0, 7), st.sampled_from(["nan", "inf", "-inf"]), st.booleans()).map(list)))
+    return {"family": "job", "spec": draw(job_specs(max_tasks=8, with_serdes=True)), "nonfinite": nonfinite}
 
 
 cases = st.one_of(shm_cases(), shm_cases(), msg_cases(), msg_cases(), report_cases(), gateway_cases(), job_cases())
@@ -336,8 +342,75 @@ def check_gateway(case) -> tuple[bool, list[str]]:
     return nt, ["gateway:" + kind]
 
 
-def check_job(case) -> tuple[bool, list[str]]:
+def _same_tree(a, b) -> bool:
+    """Equality of plain trees with NaN equal to NaN."""
+    if isinstance(a, float) and isinstance(b, float):
+        return (a != a and b != b) or a == b
+    if type(a) is not type(b):
+        return False
+    if isinstance(a, dict):
+        return a.keys() == b.keys() and all(_same_tree(a[k], b[k]) for k in a)
+    if isinstance(a, (list, tuple)):
+        return len(a) == len(b) and all(_same_tree(x, y) for x, y in zip(a, b))
+    return a == b
+
+
+def _check_job_nonfinite(job: JobInstance, nf: list, stats) -> tuple[bool, list[str]] | None:
+    """One static input of one task becomes nan / inf / -inf (bare or inside a list). Outcomes the property allows: the encoder
+    refuses, or the value comes back. Known finding F41: it comes back as None with everything else intact."""
+    import os
+    import tempfile
+
+    import cascade.benchmarks.__main__ as bench_main
+
+    idx, what, nested = nf
+    names = sorted(job.tasks)
+    name = names[idx % len(names)]
+    t = job.tasks[name]
+    field = "static_input_kw" if t.static_input_kw else ("static_input_ps" if t.static_input_ps else None)
+    if field is None:
+        return None  # the task has no static input to replace: the plain route is checked instead
+    key = sorted(getattr(t, field))[0]
+    v = float(what)
+
+    def with_value(x):
+        t2 = t.model_copy(update={field: {**getattr(t, field), key: [x] if nested else x}})
+        return job.model_copy(update={"tasks": {**job.tasks, name: t2}})
+
+    job_nf, job_none = with_value(v), with_value(None)
+    classes = ["job", "job_nonfinite:" + what + ("_nested" if nested else "")]
+    for route in ("json", "file"):
+        try:
+            raw = orjson.dumps(job_nf.dict())
+        except Exception:
+            classes.append("nonfinite_refused")
+            continue
+        if route == "json":
+            back = JobInstance(**orjson.loads(raw))
+        else:
+            fd, path = tempfile.mkstemp(prefix="verif-c17-", suffix=".json")
+            try:
+                with os.fdopen(fd, "wb") as f:
+                    f.write(raw)
+                back = bench_main.get_job(None, path)
+            finally:
+                os.unlink(path)
+        if _same_tree(back.dict(), job_nf.dict()):
+            classes.append("nonfinite_preserved")
+        elif _same_tree(back.dict(), job_none.dict()) and stats is not None and common.known(stats, PROPERTY, "F41"):
+            classes.append("known_F41")
+        else:
+            raise Violation(f"JobInstance with static input {key!r}={'[' + what + ']' if nested else what} of task {name!r} differs after the "
+                            f"{route} route: it came back as {getattr(back.tasks[name], field).get(key)!r}", "job-nonfinite")
+    return True, classes
+
+
+def check_job(case, stats=None) -> tuple[bool, list[str]]:
     job = build_job(case["spec"])
+    if case.get("nonfinite") and job.tasks:
+        r = _check_job_nonfinite(job, case["nonfinite"], stats)
+        if r is not None:
+            return r
     try:
         raw = orjson.dumps(job.dict())
         back = JobInstance(**orjson.loads(raw))
@@ -371,14 +444,16 @@ def check_job(case) -> tuple[bool, list[str]]:
     return kw and mo, ["job"] + (["job_kw_edge"] if kw else []) + (["job_multi_output"] if mo else [])
 
 
-def run_case(case) -> tuple[bool, list[str]]:
-    return {"shm": check_shm, "msg": check_msg, "report": check_report, "gateway": check_gateway, "job": check_job}[case["family"]](case)
+def run_case(case, stats=None) -> tuple[bool, list[str]]:
+    if case["family"] == "job":
+        return check_job(case, stats)
+    return {"shm": check_shm, "msg": check_msg, "report": check_report, "gateway": check_gateway}[case["family"]](case)
 
 
 def shard(seed: int, cases_n: int, tier: str) -> Stats:
     st_ = Stats()
     st_.extra["shm_classes_enumerated"] = [c.__name__ for c in shm_classes()]
-    common.hyp_run(cases, run_case, st_, seed, cases_n)
+    common.hyp_run(cases, lambda c: run_case(c, st_), st_, seed, cases_n)
     return st_
 
 
